@@ -15,6 +15,7 @@
 #include "config_interrogatedb.h"
 #include "indexRemapper.h"
 #include "interrogate_datafile.h"
+#include "verif_trace.h"
 
 using std::map;
 using std::string;
@@ -90,6 +91,7 @@ request_module(InterrogateModuleDef *def) {
   if (def->database_filename != nullptr) {
     _requests.push_back(def);
   }
+  VERIF_EVENT("{\"e\":\"Request\",\"file\":" << VERIF_Q(def->database_filename != nullptr ? def->database_filename : "") << ",\"first\":" << def->first_index << ",\"next\":" << def->next_index << ",\"dbnext\":" << _next_index << ",\"nreq\":" << _requests.size() << ",\"nmod\":" << _modules.size() << "}");
 }
 
 /**
@@ -946,9 +948,11 @@ read(std::istream &in, InterrogateModuleDef *def) {
   if (!temp.read_new(in, def)) {
     return false;
   }
+  VERIF_EVENT("{\"e\":\"ReadNew\",\"file\":" << VERIF_Q(def->database_filename != nullptr ? def->database_filename : "") << ",\"library\":" << VERIF_Q(def->library_name != nullptr ? def->library_name : "") << ",\"nf\":" << temp._function_map.size() << ",\"nw\":" << temp._wrapper_map.size() << ",\"nt\":" << temp._type_map.size() << ",\"nm\":" << temp._manifest_map.size() << ",\"ne\":" << temp._element_map.size() << ",\"ns\":" << temp._make_seq_map.size() << "}");
 
   if (def->first_index == 0 && def->next_index == 0) {
     _next_index = temp.remap_indices(_next_index);
+    VERIF_EVENT("{\"e\":\"Load\",\"file\":" << VERIF_Q(def->database_filename != nullptr ? def->database_filename : "") << ",\"bare\":1,\"tnext\":" << temp._next_index << ",\"dbnext\":" << _next_index << ",\"wfirst\":" << (temp._wrapper_map.empty() ? 0 : temp._wrapper_map.begin()->first) << "}");
 
   } else {
     int next = temp.remap_indices(def->first_index);
@@ -958,6 +962,7 @@ read(std::istream &in, InterrogateModuleDef *def) {
         << " is out of date.\n";
       return false;
     }
+    VERIF_EVENT("{\"e\":\"Load\",\"file\":" << VERIF_Q(def->database_filename != nullptr ? def->database_filename : "") << ",\"bare\":0,\"tnext\":" << next << ",\"dbnext\":" << _next_index << ",\"wfirst\":" << (temp._wrapper_map.empty() ? 0 : temp._wrapper_map.begin()->first) << "}");
   }
 
   merge_from(temp);
@@ -973,6 +978,7 @@ load_latest() {
 
   Requests copy_requests;
   copy_requests.swap(_requests);
+  VERIF_EVENT("{\"e\":\"LoadLatest\",\"n\":" << copy_requests.size() << ",\"nreq\":" << _requests.size() << "}");
 
   Requests::const_iterator ri;
   for (ri = copy_requests.begin(); ri != copy_requests.end(); ++ri) {
@@ -1031,6 +1037,7 @@ load_latest() {
               std::cerr
                 << "Error reading " << pathname << ".\n";
               set_error_flag(true);
+              VERIF_EVENT("{\"e\":\"LoadError\",\"file\":" << VERIF_Q(def->database_filename != nullptr ? def->database_filename : "") << ",\"why\":\"read\"}");
             }
           }
         }
@@ -1198,6 +1205,7 @@ void InterrogateDatabase::
 merge_from(const InterrogateDatabase &other) {
   // We want to collapse shared types together.
   IndexRemapper remap;
+  VERIF_EVENT("{\"e\":\"MergeBegin\",\"nt\":" << _type_map.size() << ",\"ont\":" << other._type_map.size() << ",\"nglobt\":" << _global_types.size() << "}");
 
   // First, we need to build a set of types by name, so we know what types we
   // already have.
@@ -1309,6 +1317,7 @@ merge_from(const InterrogateDatabase &other) {
   }
 
   _lookups_fresh = 0;
+  VERIF_EVENT("{\"e\":\"Merge\",\"nt\":" << _type_map.size() << ",\"nf\":" << _function_map.size() << ",\"nw\":" << _wrapper_map.size() << ",\"nm\":" << _manifest_map.size() << ",\"ne\":" << _element_map.size() << ",\"ns\":" << _make_seq_map.size() << ",\"nallt\":" << _all_types.size() << ",\"nglobt\":" << _global_types.size() << ",\"fresh\":" << _lookups_fresh << "}");
 }
 
 /**
@@ -1464,7 +1473,9 @@ lookup(const string &name, Lookup &lookup, LookupType type,
     // The lookup table isn't fresh; we need to freshen it.
     (this->*freshen)();
     _lookups_fresh |= (int)type;
+    VERIF_EVENT("{\"e\":\"Freshen\",\"which\":" << (int)type << ",\"size\":" << lookup.size() << ",\"fresh\":" << _lookups_fresh << "}");
   }
+  VERIF_EVENT("{\"e\":\"Lookup\",\"which\":" << (int)type << ",\"name\":" << VERIF_Q(name) << ",\"hit\":" << (lookup.count(name) != 0 ? 1 : 0) << ",\"fresh\":" << _lookups_fresh << "}");
 
   Lookup::const_iterator li;
   li = lookup.find(name);
